@@ -89,7 +89,12 @@ def run(rep, tier, seed, pa):
         anns = rng.choice([1, 2, 3, 4, ["zed", "abe"], ["x"]])
         names = ["annotator_%d" % i for i in range(anns)] if isinstance(anns, int) else list(anns)
         mode = rng.random()
-        if mode < 0.5:
+        if ri % 6 == 5:
+            # pairs of perturbations at high magnitude (interactions: an annotator wiped out by false negatives after another perturbation ran)
+            m = rng.choice([0.8, 1.0, 1.0])
+            a, b = rng.sample(FLAGS, 2)
+            flags = {f: f in (a, b) or (f == "false_neg" and rng.random() < 0.5) for f in FLAGS}
+        elif mode < 0.5:
             flags = {f: False for f in FLAGS}
             flags[rng.choice(FLAGS)] = True
         else:
